@@ -149,8 +149,10 @@ def run(ctx):
                 check_init(ctx, d, lmin, lmax)
     # exhaustive sequences
     ctx.exhaustive = True
-    confs = [(1, 1, 2, 4), (2, 1, 2, 3), (2, 0, 1, 3), (2, 2, 3, 3)] if ctx.quick() else \
-            [(1, 0, 2, 5), (2, 1, 2, 4), (2, 0, 2, 3), (2, 1, 3, 3), (3, 1, 2, 3), (3, 0, 1, 3)]
+    # (3, 1, 3, 3): three dimensions with lmax = lmin + 2 -- the smallest configuration with INTERIOR refinements (a level vector is added without the
+    # highest level reached so far growing), needed by re-initialisation shortcuts keyed on "the scheme has not grown" (missed seed C01_7)
+    confs = [(1, 1, 2, 4), (2, 1, 2, 3), (2, 0, 1, 3), (2, 2, 3, 3), (3, 1, 3, 3)] if ctx.quick() else \
+            [(1, 0, 2, 5), (2, 1, 2, 4), (2, 0, 2, 3), (2, 1, 3, 3), (3, 1, 2, 3), (3, 0, 1, 3), (3, 1, 3, 3)]
     for d, lmin, lmax, L in confs:
         # only vectors that can ever matter: the box [lmin-1, lmax+L]^d ; restrict requests to vectors with |v|_1 <= lmax+(d-1)*lmin+L
         box = list(itertools.product(range(max(lmin - 1, 0), lmax + 2), repeat=d))
